@@ -7,7 +7,9 @@ source flag / optional elements / detached header) the reference writer emits CO
 fields: checksum type, header size, flags, compression type, optional-element count / id / size, index size, chunk
 checksum type, chunk count, every stored and uncompressed length, signature count.  Plus: index with zero entries,
 header cut at every length with the size field adjusted (sealed), every raw truncation, all byte strings of length
-<= 2 as a whole file.  On each: every public operation as a sequence of its own on a fresh context, and for files that
+<= 2 as a whole file; and "payload" mutants: containers in which every checksum is right but a chunk's stored bytes are not
+what the decoder expects (not a frame, frame of other length, truncated, trailing garbage, skippable frame, frame that names
+a dictionary id, dictionary content that starts with the zstd dictionary magic followed by garbage, ...).  On each: every public operation as a sequence of its own on a fresh context, and for files that
 open every ordered pair of operations; and every tool (unzck, unzck -c, --dict, --header, zck_read_header -c / -f,
 zck_delta_size in both argument orders, zck_gen_zdict, zckdl -s <file> against an unreachable URL) in-process.
 Oracle: in a forked child under ASan+UBSan with an alarm: no sanitizer report, no fatal signal, no timeout (confirmed
@@ -152,6 +154,54 @@ def mutants(ctx, name, h, body):
     return out
 
 
+def payload_mutants(ctx):
+    """containers that are valid as far as every checksum goes, whose chunk payloads are not what the compression layer
+    expects: (label, class, bytes).  Header, chunk and data digests are all recomputed, so only the decoder can object."""
+    blk = core.blocks(ctx.seed)
+    out = []
+    zc = zckref.zstd_compress
+    junk = core.prng_bytes(40, 11)
+    dict_raw = D
+    payloads = {
+        "not-a-frame": lambda raw: junk,
+        "frame-of-shorter-content": lambda raw: zc(raw[:-3], 3),
+        "frame-of-longer-content": lambda raw: zc(raw + b"xyz", 3),
+        "frame-truncated": lambda raw: zc(raw, 3)[:max(1, len(zc(raw, 3)) // 2)],
+        "frame-plus-garbage": lambda raw: zc(raw, 3) + b"\0\1\2",
+        "two-frames": lambda raw: zc(raw[:5], 3) + zc(raw[5:], 3),
+        "skippable-frame": lambda raw: b"\x50\x2a\x4d\x18" + (8).to_bytes(4, "little") + b"12345678",
+        "dict-magic-as-stored-bytes": lambda raw: b"\x37\xa4\x30\xec" + junk,
+        "frame-with-dict-id": lambda raw: b"\x28\xb5\x2f\xfd\x23" + bytes([7, 0, 0, 0]) + bytes([len(raw)]) + bytes([1 | (len(raw) << 3) & 0xff, (len(raw) >> 5) & 0xff, 0]) + raw,
+        "frame-huge-window": lambda raw: b"\x28\xb5\x2f\xfd\x00\xf8" + bytes([1, 0, 0]),
+        "empty-frame": lambda raw: zc(b"", 3),
+    }
+    dicts = {"none": b"", "plain": dict_raw, "zstd-dict-magic+garbage": b"\x37\xa4\x30\xec" + core.prng_bytes(60, 5),
+             "zstd-dict-magic-only": b"\x37\xa4\x30\xec", "one-byte": b"q"}
+    pieces = [blk["a"], blk["b"]]
+    for dname, dct in dicts.items():
+        for flags in (0, 4):
+            for target in ("none", "dict", 1, 2):
+                for pname, fn in payloads.items():
+                    if target == "none" and pname != "not-a-frame":
+                        continue
+                    if target == "dict" and not dct:
+                        continue
+                    chunks, body = [], bytearray()
+                    def add(raw, stored):
+                        chunks.append(Chunk(zckref.digest(1, stored), len(stored), len(raw), zckref.digest(1, raw)))
+                        body.extend(stored)
+                    if dct:
+                        add(dct, fn(dct) if target == "dict" else zc(dct, 3))
+                    else:
+                        chunks.append(Chunk(bytes(32), 0, 0, bytes(32)))
+                    for i, raw in enumerate(pieces, 1):
+                        add(raw, fn(raw) if target == i else zc(raw, 3))   # data chunks compressed without the dictionary on purpose
+                    h = zckref.Header(1, 1, flags, 2, chunks, bytes(32) if flags & 4 else zckref.digest(1, bytes(body)))
+                    out.append(("payload dict=%s flags=%d chunk=%s %s" % (dname, flags, target, pname if target != "none" else "-"), "payload:" + (pname if target != "none" else "dict-" + dname),
+                                h.build() + bytes(body)))
+    return out
+
+
 def work(arg):
     peer, items, seqs, timeout_ms = arg   # items: (label, klass, bytes)
     job = ["peer %s" % peer.hex(), "chunk 32", "timeout %d" % timeout_ms]
@@ -244,6 +294,7 @@ def run(ctx):
     for name, h, body, detached in B:
         for label, klass, b in mutants(ctx, name, h, body):
             items.append(("%s %s" % (name, label), klass, b))
+    items += payload_mutants(ctx)
     short = [bytes(x) for ln in (0, 1, 2) for x in itertools.product(range(256), repeat=ln)] if thorough else \
             [bytes(x) for ln in (0, 1) for x in itertools.product(range(256), repeat=ln)] + [bytes([0, x]) for x in range(256)] + [b"\0Z", b"\0ZCK1", b"\0ZHR1", b"\0ZCK1\x01", b"\0ZCK1\x01\x00"]
     seen = set()
@@ -286,7 +337,7 @@ def run(ctx):
     # tools
     tsel = opened + ([it for it in items if it not in opened][::4] if thorough else [it for it in items if it not in opened][::25])
     if not thorough:
-        tsel = tsel[::2]
+        tsel = [it for it in tsel if it[1].startswith("payload")] + [it for it in tsel if not it[1].startswith("payload")][::2]
     for r in core.pmap(work_tools, [(peer, ch, TOOLS, 20000) for ch in core.chunks(tsel, 30)]):
         absorb(r)
     ctx.note("tools done %.1fs" % (time.time() - t0))
